@@ -180,6 +180,21 @@ def check(c):
         c.guard('C13.satisfy', n, [
             'output_tuple in self._satisfied',
             '!self._satisfied[output_tuple]'], sm)
+        # every given output that is a known, not yet satisfied atom is
+        # recorded -- whatever the (cached) overall result: an OR
+        # prerequisite that is already true must still record later outputs
+        # (the cache is dropped when an upstream task is removed)
+        c.guard_only('C13.satisfy', n, [
+            'output_tuple in self._satisfied',
+            '!self._satisfied[output_tuple]'], sm,
+            what='every known unsatisfied output is recorded;')
+        lp = n
+        while id(lp) in c.idx.parent and not isinstance(lp, ast.For):
+            lp = c.idx.parent[id(lp)]
+        c.ob('C13.satisfy', c.key(n, sm) + ' for every given output',
+             isinstance(lp, ast.For) and norm(lp.iter) == 'outputs'
+             and not any(isinstance(x, (ast.Break, ast.Return))
+                         for x in ast.walk(lp)), c.where(n, sm), '')
     ot = [n for n in c.idx.walk(sm.node) if isinstance(n, ast.Assign)
           and norm(n.targets[0]) == 'output_tuple']
     ok = len(ot) == 1 and norm(ot[0].value) == \
@@ -210,6 +225,12 @@ def check(c):
 
 
 VARIANTS = [
+    ('satisfied-prereq-ignores-later-outputs', 'cylc/flow/prerequisite.py',
+     '''        for output in outputs:
+            output_tuple = PrereqTuple(''', '''        if self._cached_satisfied:
+            return
+        for output in outputs:
+            output_tuple = PrereqTuple(''', 'C13.satisfy'),
     ('stale-cache', 'cylc/flow/prerequisite.py',
      '''        if not (self._cached_satisfied and value):
             # Force later recalculation of cached satisfaction state:
